@@ -6,7 +6,7 @@ from harness import core, htmlnorm, treegen, trees, xdoc
 
 GEN = ['gen_tables', 'gen_regex', 'gen_config', 'gen_escapes']
 THEOREMS = ['C03_fragment_parses', 'C03_fragment_token_tree', 'C03_fragment_hypotheses', 'C03_fragment_fuel_suffices', 'C03_fragment_document',
-            'C03_fragment_html', 'C03_fragment_markdown_html', 'C03_fragment_html_instance', 'C03_outline_lists',
+            'C03_fragment_html', 'C03_fragment_markdown_html', 'C03_fragment_html_instance', 'C03_outline_lists', 'C03_outline_html', 'C03_outline_instance',
             'C03_fragment_document_markdown', 'C03_fragment_document_configs', 'C03_bounded_trees', 'C03_family_is_not_vacuous']
 TRUSTED = ['harness/treegen.py: the tree grammar, the speller (every free choice drawn and counted) and the direct HTML writer - the independent oracle; '
            'harness/htmlnorm.py: CommonMark\'s test normalisation',
@@ -148,6 +148,66 @@ def frag_html(t, tight):
             + ('' if tg and kids[-1][0] == 'p' else '\n') + '</li>\n' + cl)
 
 
+def outline_forest(rng, depth, width):
+    """a forest of Spec/Outline.v: (title, kids)"""
+    out = []
+    for _ in range(rng.randint(1, width)):
+        title = ' '.join([rng.choice(FRAG_FIRST)] + [rng.choice(FRAG_WORDS) for _ in range(rng.randint(0, 3))])
+        kids = outline_forest(rng, depth - 1, width) if depth > 0 and rng.random() < 0.5 else []
+        out.append((title, kids))
+    return out
+
+
+def outline_spell(forest, k, b, pad, sub):
+    lines = []
+    for title, kids in forest:
+        lines.append(' ' * k + b + ' ' * pad + title)
+        lines += [' ' * (k + 1 + pad) + l for l in outline_spell(kids, sub, b, pad, sub)]
+    return lines
+
+
+def outline_expect(forest, k, b, pad, sub, ln):
+    """(dumped List token, line numbers in pre-order, HTML, number of lines)"""
+    items, lns, html, cur = [], [ln], [], ln
+    for title, kids in forest:
+        ch = [[trees.TAGS['Paragraph'], [[0, title]]]]
+        ilns = [cur, cur]
+        h = '<li>' + title.replace('&', '&amp;').replace('<', '&lt;').replace('>', '&gt;')
+        n = 1
+        if kids:
+            d, l, hh, m = outline_expect(kids, sub, b, pad, sub, cur + 1)
+            ch.append(d)
+            ilns += l
+            h += '\n' + hh + '\n'
+            n += m
+        items.append([trees.TAGS['ListItem'], b, k, k + 1 + pad, False, ch])
+        lns += ilns
+        html.append(h + '</li>')
+        cur += n
+    return [trees.TAGS['List'], [], False, items], lns, '<ul>\n' + '\n'.join(html) + '\n</ul>', cur - ln
+
+
+def outline_worker(seed):
+    """the outline lists of the second unbounded theorem (C03_outline_lists) on the implementation"""
+    rng = random.Random(seed)
+    forest = outline_forest(rng, rng.randint(0, 4), 3)
+    k, b, pad, sub = rng.randint(0, 3), rng.choice('-+*'), rng.randint(1, 4), rng.randint(0, 3)
+    text = '\n'.join(outline_spell(forest, k, b, pad, sub)) + '\n'
+    want_tree, want_lines, want_html, _n = outline_expect(forest, k, b, pad, sub, 1)
+    from mistletoe import Document
+    try:
+        with xdoc.renderer(0):
+            d = Document(text)
+            got = trees.dump(d)[1]
+            gl = trees.block_line_numbers(d)
+        import mistletoe
+        html = mistletoe.markdown(text)
+    except Exception as e:
+        return text, False, 'EXC %s: %s' % (type(e).__name__, e), None
+    ok = got == [want_tree] and gl == want_lines and html == want_html + '\n'
+    return text, ok, (got, gl, html), ([want_tree], want_lines, want_html + '\n')
+
+
 def frag_worker(args):
     seed, depth = args
     rng = random.Random(seed)
@@ -225,6 +285,18 @@ def run(ctx, only=None):
         if not ok:
             ctx.failing.append({'interface': 'oracle(fragment)', 'input': {'text': text, 'seed': seed, 'depth': depth},
                                 'what': 'a tree of plain paragraphs, fenced code, quotes and single-item lists does not parse to the tree it was written from', 'observed': got, 'expected': want, 'kf': None})
+    # the outline lists of the second unbounded theorem, on the implementation
+    ojobs = [rng.randint(0, 2 ** 40) for _ in range(800 if ctx.quick() else 20000)]
+    with mp.Pool(core.NPROC) as pool:
+        ores = pool.map(outline_worker, ojobs, chunksize=50)
+    for seed, (text, ok, got, want) in zip(ojobs, ores):
+        ctx.count('evaluations')
+        ctx.count('outline_forests')
+        if len(ftexts) < (900 if ctx.quick() else 14000):
+            ftexts.append(text)
+        if not ok:
+            ctx.failing.append({'interface': 'oracle(outline)', 'input': {'text': text, 'outline_seed': seed},
+                                'what': 'a tight nested bullet list written one item per line does not parse to the forest it was written from', 'observed': got, 'expected': want, 'kf': None})
     xdoc.run(ctx, texts + ftexts, cfgs=(0,))
 
 
